@@ -7,6 +7,7 @@ with the previous round's results (title line of notes.md + files touched). Noth
 import os, re, sys, glob
 src, dst, word = sys.argv[1:4]
 FOCUS = {
+ 'h': "This time start from the DOCUMENTATION: read README.md, CHANGELOG.md, the crate-level docs in src/lib.rs and core/src/lib.rs, and the doc comments of the public items in the anchor files. Pick behaviours that the documentation promises (an option's documented meaning, a documented precedence or default, a documented error message / span / location, a documented equivalence between two spellings, an entry in the changelog that says something was fixed or added) and that fall under this property but that no existing test pins down, and break exactly one such documented promise per change - in a way that still reads like an honest refactor or feature tweak. Quote the documentation sentence you broke in notes.md. Avoid anything earlier rounds already covered.",
  'g': "This time aim at SIZE and DEPTH thresholds and at uncommon spellings: a change that is invisible for small inputs and shows only from a threshold on - five or more items in one attribute, four or more attributes, a fourth nesting level, four or more variants or fields, a `multiple` field seen many times, more than 8 / 16 / 32 / 64 errors or map entries, long names, numbers with dozens of digits, deeply nested invisible groups or parentheses - for example a small fixed-capacity buffer, `take(n)` / `chunks(n)` / `windows(2)` slips, u8 counters, recursion limits, `split_at` / `rsplit` on the wrong side, `sort`/`dedup` where order or multiplicity matters, binary search on unsorted data, hashing instead of ordered storage; and at uncommon but legal spellings that take a different branch - raw identifiers, `r#\"raw\"#` and byte / C strings, numbers with suffixes or exponents, `::`-rooted and `crate`/`self`/`super` paths, trailing commas, empty lists, attributes written `#[a{..}]` or `#[a[..]]`, doc comments (`/// x` is `#[doc = \"x\"]`), `cfg_attr`-style nesting. Each change must still keep every small, ordinary case working.",
  'f': "This time aim at SHARED helpers that several paths call, where a refactor-style change stays correct for the main caller and goes wrong for a secondary one: the default methods of the traits in core/src/options/mod.rs (ParseAttribute / ParseData), the code-generation building blocks (Declaration / MatchArm / CheckMissing / Initializer in codegen/field.rs, default_expr.rs, variant_data.rs, outer_from_impl.rs, the attribute extractor), the container-vs-field inheritance in options/core.rs and options/input_field.rs, util helpers (path_to_string, parse_attribute_to_meta_list, Flag, Override, SpannedValue, WithOriginal, PathList, IdentString, ShapeSet), ast::Fields / ast::Data / ast::Generics conversions and their iterators, and Error constructors / combinators. Good candidates: an `if` that special-cases the first or the last element; a `zip` or `skip` that silently truncates when lengths differ; a cache / early return keyed on the wrong thing; hygiene of generated local names (`__errors`, `__default`, `__flatten`, field-named locals) colliding or shadowing in one configuration only; spans taken from the wrong token; an `unwrap_or_default` that hides an error; clone-vs-move changes that alter evaluation order of user callables (`default = ..`, `map`, `and_then`, `with`).",
  'e': "This time aim at the INTERPLAY of two features that are documented separately and at the public helper APIs that both derived code and hand-written macros call: e.g. flatten x container / field defaults, rename_all x rename, forward_attrs x attributes, with x map / and_then, Option / Vec / Result wrappers x defaults and absence, generic receivers x skip / flatten, nested receivers x allow_unknown_fields; constructors, accessors, conversions and trait impls (Display, Debug, PartialEq, Hash, IntoIterator, From, Deref, AsRef, ToTokens) of darling::util, darling::ast, darling::usage and darling::Error. Prefer changes that leave the common case alone and alter behaviour only for boundary sizes (0, 1 or 2 elements), for the SECOND occurrence of something, for inputs in which two names / paths / spans coincide, or for one of two code paths that should agree (from_meta vs from_list vs from_nested_meta; struct vs struct-variant; derive-time check vs generated code).",
